@@ -1280,6 +1280,52 @@ def main():
                 want_text, src.strip().replace('\n', ' '), text_of(got)),
                 {'sources': [src], 'expected_text': want_text, 'got': got, 'notes': notes})
 
+    # ------------------------------------------------------------------ a whole process
+    # "…writes exactly the documented text to standard output": the bytes on the STDOUT of a real
+    # process started the way `lsrun` starts (bardolph.controller.run.main: production logging,
+    # output and clock bindings, fake lights), for scripts that also make the machine log
+    # something (an unknown light, a light of the wrong kind, a fault that ends the script).
+    # Diagnostics are not output of the script: they may go anywhere but standard output.
+    import shutil
+    import subprocess
+    import tempfile
+    from core import REPO
+    process_cases = [
+        ('print "a" println "b"', 'a b\n'),
+        ('print "a" set "Top" begin end println "b"', 'a b\n'),
+        ('print "a" set "nosuch" println "b"', 'a b\n'),
+        ('print 1 on "nosuch" print 2 get "Strip" println 3', '1 2 3\n'),
+        ('print "before" printf "{:d}" 1.5', 'before\n'),
+        ('printf "{} {}" 1 2 off group "nosuch" printf "{}" 3', '1 2 3\n'),
+        ('define f begin set "Lamp" zone 1 return 5 end println [f] println [f]', '5\n5\n'),
+    ]
+    scratch = tempfile.mkdtemp(prefix='c19_cli_')
+    try:
+        for verbose in ([], ['-v']):
+            for src, want in process_cases:
+                code = ('import sys; sys.argv = ["lsrun", "-f"] + {!r} + ["-s", {!r}]; '
+                        'from bardolph.controller import run; run.main()').format(verbose, src)
+                try:
+                    r = subprocess.run([sys.executable, '-W', 'ignore', '-c', code], cwd=scratch,
+                                       capture_output=True, text=True, timeout=60,
+                                       env=dict(os.environ, PYTHONPATH=REPO))
+                    got = r.stdout
+                except subprocess.TimeoutExpired:
+                    got = None
+                chk.count()
+                stats['whole_process_runs'] = stats.get('whole_process_runs', 0) + 1
+                if got != want:
+                    chk.violation('stdout-bytes:whole-process',
+                                  'lsrun {}-s {!r}: standard output is {!r}, the script writes {!r}'.format(
+                                      '-v ' if verbose else '', src, got, want),
+                                  {'sources': [src], 'arguments': ['-f'] + verbose + ['-s', src],
+                                   'expected_text': want, 'got': got,
+                                   'how': 'harness/c19.py: python -c "... run.main()" in a child process'})
+                else:
+                    chk.nontrivial_case(('process', bool(verbose), src))
+    finally:
+        shutil.rmtree(scratch, ignore_errors=True)
+
     # ------------------------------------------------------------------ the Lean model
     answers = chk.driver.ask_many([(c, a) for c, a, _, _, _ in requests])
     n_dis = 0
